@@ -284,6 +284,9 @@ namespace vh
 // The iteration order of an unordered container is unspecified and is not preserved by the copy the backend
 // rebuilds; the call-site oracle therefore formats the same elements in each possible order. These are only ever
 // formatted by fmtquill at the call site (never logged): fmt renders them exactly like a set / map.
+template <class T, class = void> struct has_mapped0 : std::false_type {};
+template <class T> struct has_mapped0<T, std::void_t<typename T::mapped_type>> : std::true_type {};
+template <class T> inline constexpr bool has_mapped_v = has_mapped0<T>::value;
 template <class T>
 struct PermSet : std::vector<T>
 {
@@ -304,6 +307,19 @@ C perm2(int swap, E const& e0, E const& e1)
   if (swap) { c.push_back(e1); c.push_back(e0); }
   else { c.push_back(e0); c.push_back(e1); }
   return c;
+}
+// which order does the oracle use for a two-element unordered container?
+//   alt >= 0 : enumeration of the possible orders (bit `bit` of alt)     -> classification "only the order differs"
+//   alt <  0 : the STRICT call-site order = the iteration order of the source container itself
+inline int sw(int alt, int bit, int strict_swap) { return alt < 0 ? strict_swap : ((alt >> bit) & 1); }
+// does the source container iterate its SECOND listed element first?
+template <class C, class K>
+int first_is(C const& c, K const& k1)
+{
+  auto it = c.begin();
+  if (it == c.end()) { return 0; }
+  if constexpr (has_mapped_v<C>) { return it->first == k1; }
+  else { return *it == k1; }
 }
 template <class C, class E>
 C perm1(E const& e0)
@@ -445,7 +461,8 @@ struct StmtRec
   int si{0};
   long reserved{-1}, cache_before{-1}, cache_after{-1}, fits{-1}, tsize{-1}, twritten{-1}, tconsumed{-1}, tcache{-1};
   int mutated{0}, orafail{0}, has_str{0}, node_changed{0};
-  std::vector<std::string> exp_raw; // call-site texts (one per admissible element order), unsanitised
+  std::vector<std::string> strict_raw; // THE call-site text (source containers' own iteration order), unsanitised
+  std::vector<std::string> exp_raw;    // the same with every possible order of two-element unordered containers
 };
 
 inline thread_local bool tl_has_ctx = false; // this thread already owns a quill thread context
@@ -511,11 +528,19 @@ struct H
   }
   // call-site oracle; never part of the measured execution
   template <class Fn>
-  void expect(Fn&& f)
+  void expect_strict(Fn&& f)
+  {
+    ++tl_quiet;
+    try { cur().strict_raw.push_back(f()); }
+    catch (std::exception const&) { cur().orafail = 1; }
+    --tl_quiet;
+  }
+  template <class Fn>
+  void expect_alt(Fn&& f)
   {
     ++tl_quiet;
     try { cur().exp_raw.push_back(f()); }
-    catch (std::exception const&) { cur().orafail = 1; }
+    catch (std::exception const&) {}
     --tl_quiet;
   }
   // the three passes of the real codec, run directly on a scratch buffer
